@@ -1,5 +1,6 @@
 import BdModel.Proofs.Sched.Limit
 import BdModel.Sched.Argv
+import BdModel.Proofs.Lock
 /-
   C03 — each runnable step runs exactly once; retries are bounded; dry-run runs nothing.
 -/
@@ -79,11 +80,30 @@ example : Argv.runs Argv.attempt { cmd := 0, args := [], strForm := false, scrip
 
 end argv
 
+/-- **C03 (dry-run writes no history).** In every world reachable by ANY interleaving of any number of
+    agents (model of `Agent.Run`'s call order, area Lock: setup, preconditions, `if a.dry { return
+    a.dryRun() }` BEFORE the lock, the probe, `setupDatabase`, the first status write and the socket), an
+    agent started in dry-run mode has performed no history operation, written no status record, and
+    touched neither socket nor lock; with `C03_dry` (no command is started in a dry run of the scheduler)
+    this is the dry-run clause in full. -/
+theorem C03_dry_no_history (w : BdModel.Lock.World) (h : BdModel.Lock.Reach w) (a : Nat)
+    (hd : (w.agents a).dry = true) :
+    (w.agents a).hist = 0 ∧ (w.agents a).recs = 0 ∧ (w.agents a).execs = 0 ∧ (w.agents a).hexecs = 0 ∧
+    (w.agents a).binds = 0 ∧ (w.agents a).unlinks = 0 := by
+  obtain ⟨⟨h1, h2, h3, h4, h5, h6⟩, -⟩ := BdModel.Lock.reach_dry h a hd
+  exact ⟨h3, h4, h1, h2, h6, h5⟩
+
+/-- non-vacuity: a dry agent runs through setup, preconditions and the dry run and is done -/
+example : ((BdModel.Lock.run (BdModel.Lock.init [{ dag := 0, dry := true, steps := 2 }])
+    [(0, .setup true), (0, .precond true), (0, .dryRun)]).map fun w => ((w.agents 0).pc, (w.agents 0).hist)) =
+    some (.done, 0) := by decide
+
 end BdModel.P03
 
 #print axioms BdModel.P03.C03_execs
 #print axioms BdModel.P03.C03_bounded
 #print axioms BdModel.P03.C03_final
 #print axioms BdModel.P03.C03_dry
+#print axioms BdModel.P03.C03_dry_no_history
 #print axioms BdModel.P03.C03_argv
 #print axioms BdModel.P03.C03_argv_pinned_refuted
